@@ -26,6 +26,7 @@ type c02Case struct {
 	Kinds  []string
 	Rot    int // rotates the other protocols' gop_num relative to rtmp's
 	Merge  int // rtmp merge_write_size
+	Rtmps  bool // rtmp.enable=false, rtmps_enable=true: publisher and RTMP joiners connect over TLS
 	Https  bool // http-flv and http-ts are served on the https listener only (enable=false, enable_https=true)
 }
 
@@ -72,6 +73,9 @@ func c02Catalogue() []c02Case {
 		out = append(out, c02Case{Name: "av/https-only", Shapes: []gen.Shape{av}, Gop: g, Kinds: kinds, Https: true})
 	}
 	out = append(out, c02Case{Name: "mid-gop-metadata/https-only", Shapes: []gen.Shape{mm}, Gop: 1, Kinds: kinds, Https: true})
+	for _, g := range []int{1, 2} {
+		out = append(out, c02Case{Name: "av/rtmps-only", Shapes: []gen.Shape{av}, Gop: g, Kinds: kinds, Rtmps: true})
+	}
 	for k := range out {
 		out[k].Rot = k % 3
 		if (k/3)%2 == 1 {
@@ -107,6 +111,7 @@ func c02Scenario(cs c02Case, i int) relayScenario {
 	sc := relayScenario{Stream: fmt.Sprintf("j%d", i), FmtMode: 0, PubChunk: 4096}
 	sc.Conf = srv.Conf{RtmpGop: cs.Gop, RtmpGopCap: cs.Cap, MergeWrite: cs.Merge, Flv: true, FlvGop: cs.gopOf("flv"), FlvGopCap: cs.capOf("flv"), Ts: true, TsGop: cs.gopOf("ts"), TsGopCap: cs.capOf("ts")}
 	sc.Conf.FlvHttpsOnly, sc.Conf.TsHttpsOnly = cs.Https, cs.Https
+	sc.Conf.RtmpsOnly = cs.Rtmps
 	sc.Shape = cs.Shapes[0]
 	sc.More = cs.Shapes[1:]
 	return sc
@@ -913,7 +918,7 @@ func init() {
 			return n + 8
 		},
 		CaseTimeout: func(string) time.Duration { return 5 * time.Minute },
-		Rule: "one case = one whole-server run of a catalogue entry (stream shape × gop_num{0,1,2} × frame cap{0,3}, half of the entries with rtmp merge_write_size 512 or 2048; shapes: A/V (H.264, H.265 classic, H.265 enhanced-RTMP with and without composition offsets, i.e. CodedFrames / CodedFramesX packets), video-only, audio-only, G.711, Opus+video, sequence-header change at a GOP boundary and mid-GOP, a change of the AAC sequence header alone mid-GOP, mid-GOP metadata, long GOP, and re-publish histories A/V→audio-only, audio-only→A/V, A/V→A/V; three entries with HTTP-FLV / HTTP-TS enabled on the https listener only, the joiners connecting over TLS) in which an RTMP, an HTTP-FLV and an HTTP-TS joiner are attached at EVERY message index (publisher paused, exact admission index). " +
+		Rule: "one case = one whole-server run of a catalogue entry (stream shape × gop_num{0,1,2} × frame cap{0,3}, half of the entries with rtmp merge_write_size 512 or 2048; shapes: A/V (H.264, H.265 classic, H.265 enhanced-RTMP with and without composition offsets, i.e. CodedFrames / CodedFramesX packets), video-only, audio-only, G.711, Opus+video, sequence-header change at a GOP boundary and mid-GOP, a change of the AAC sequence header alone mid-GOP, mid-GOP metadata, long GOP, and re-publish histories A/V→audio-only, audio-only→A/V, A/V→A/V; three entries with HTTP-FLV / HTTP-TS enabled on the https listener only, the joiners connecting over TLS, and two with RTMP served as RTMPS only) in which an RTMP, an HTTP-FLV and an HTTP-TS joiner are attached at EVERY message index (publisher paused, exact admission index). " +
 			"oracle (Appendix A.1 of DESIGN.md): latest metadata/sequence headers before media and nothing else; header-in-force register equals the header each frame was published under; first video frame is a key frame; replayed GOPs are the last min(gop_num, #keys) GOPs, oldest first, prefixes cut only at cap/cap+1; live continues at the next message (or next key frame when nothing was replayed and the incarnation has video); audio-only incarnations get one of the next 3 audio frames; TS: PAT,PMT first, first video PES random-access with SPS/PPS of the header in force and carrying the key frame the replay rule names (oldest of the last min(gop_num,#keys) GOPs, else the next key frame; never a frame of an earlier incarnation). rtmp, http-flv and http-ts get different gop_num / cap values in two thirds of the cases (each protocol has its own setting). cell = protocol × shape × gop × cap × join class. thorough repeats the catalogue with other seeds (frame sizes / timestamps). Plus RTSP-to-RTSP cases (audio: AAC, none, or G.711 whose frames begin with bytes that read as IDR/SPS/PPS NAL headers - an audio packet must never end a joiner's wait): a publisher over interleaved TCP whose frames span many RTP packets and up to 10 subscribers whose PLAY completes between two packets, six of them between two fragments of a key frame - the first video packet each receives must start a key-frame access unit.",
 		Assumptions: []string{"reference RTMP/FLV/TS decoders (harness/ref)", "generated streams are decodable from their start (first video frame after a sequence header is a key frame)",
 			"RTSP joiners of an RTMP-published stream are covered by C06's RTSP consumer start checks; RTSP joiners of an RTSP-published stream by the rtsp-join cases here"},
